@@ -16,7 +16,9 @@ import (
 	"sync/atomic"
 	"time"
 
+	"github.com/btcsuite/btcd/btcutil/v2"
 	"github.com/btcsuite/btcd/chainhash/v2"
+	"github.com/btcsuite/btcd/rpcclient"
 	"github.com/btcsuite/btcd/wire/v2"
 	"github.com/lightninglabs/neutrino"
 	"github.com/lightninglabs/neutrino/banman"
@@ -232,6 +234,8 @@ func DriveC17(t *tr.W, thorough bool) {
 	rng := tr.Rng(1717)
 	c17AboveTip(t, rng)
 	c17StopBehindGetCFilter(t, rng)
+	c17StopDuringRebroadcast(t, rng)
+	c17RescanUpdateParked(t, rng)
 	iters := 4 * tr.EnvInt("VERIF_BUDGET", 1)
 	if thorough {
 		iters *= 4
@@ -538,4 +542,177 @@ func (s *Sim) Observe0() string {
 		btip = fmt.Sprintf("%d:%s", h, s.W.BlockID(hdr.BlockHash()))
 	}
 	return fmt.Sprintf("best %s btip %s ftip %s", best, btip, ftip)
+}
+
+// c17StopDuringRebroadcast: a transaction has been accepted; a new block
+// triggers its rebroadcast; Stop is called while that rebroadcast's broadcast
+// is in flight, and only then do the peers answer: they ask for the
+// transaction and reject it as already in the chain ("transaction already
+// exists").  The rebroadcast goroutine has to hand the confirmation to a
+// handler that has already quit; Stop must still return.
+func c17StopDuringRebroadcast(t *tr.W, rng *rand.Rand) {
+	l := 20 + rng.Intn(20)
+	sc := Scenario{Name: "stop-during-rebroadcast-confirmed", Len: l, Barrier: true,
+		Peers: []Behaviour{{Kind: "honest", Tx: "confirm-after-release"}, {Kind: "honest", Tx: "confirm-after-release"}}}
+	t.Case("c17 stop-during-rebroadcast-confirmed len %d npeers 2", l)
+	s, err := New(sc, rng, t.Op)
+	if err != nil {
+		t.Op("setup", "err "+err.Error())
+		return
+	}
+	defer s.Cleanup()
+	peerLines(t, s)
+	if err := s.Start(); err != nil {
+		t.Op("start", "err "+err.Error())
+		return
+	}
+	ok := s.waitFor(6*time.Second, func(o Obs) bool { return s.converged(o) && len(o.Conn) == len(s.Peers) })
+	t.Op("waitsync", map[bool]string{true: "ok", false: "timeout"}[ok])
+	tx := testTx(rng)
+	ret, _ := timed(5*time.Second, func() { s.CS.SendTransaction(tx) })
+	t.Op("call SendTransaction", map[bool]string{true: "returned", false: "HANG"}[ret])
+	// a new block: the broadcaster rebroadcasts the pending transaction
+	nt := s.W.Extend(s.W.Honest(), 1, "t")
+	s.W.SetHonest(nt)
+	t.Op("grow 1", fmt.Sprintf("honest %d:%s", nt.Height, nt.ID))
+	s.announce(false)
+	seen := false
+	for i := 0; i < 500 && !seen; i++ {
+		time.Sleep(10 * time.Millisecond)
+		seen = atomic.LoadInt32(&s.Peers[0].GotInvTx) >= 2 || atomic.LoadInt32(&s.Peers[1].GotInvTx) >= 2
+	}
+	t.Op("rebroadcast", map[bool]string{true: "announced", false: "not-reached"}[seen])
+	// Stop is called; 30 ms later the peers' answers arrive
+	go func() {
+		time.Sleep(30 * time.Millisecond)
+		for _, p := range s.Peers {
+			close(p.Release)
+		}
+	}()
+	d := s.Stop()
+	if d < 0 {
+		t.Op("stop", "HANG")
+		hangStacks(t, s.HangDump, "(*ChainService).Stop", "(*Broadcaster).rebroadcast", "(*Broadcaster).Stop")
+	} else {
+		t.Op("stop", "ok")
+		t.Line("# stop took %d ms; peers saw the transaction %d/%d times", d.Milliseconds(), s.Peers[0].GotTx, s.Peers[1].GotTx)
+	}
+	t.Hit("c17.stop-during-rebroadcast")
+}
+
+// hangStacks writes the goroutines of a dump whose stack mentions one of the
+// needles as `# hang-stack` comment lines (function names and repo file:line).
+func hangStacks(t *tr.W, dump string, needles ...string) {
+	for _, g := range strings.Split(dump, "\n\n") {
+		hit := false
+		for _, n := range needles {
+			hit = hit || strings.Contains(g, n)
+		}
+		if !hit {
+			continue
+		}
+		n := 0
+		for _, l := range strings.Split(g, "\n") {
+			l = strings.TrimSpace(l)
+			if strings.HasPrefix(l, "/") {
+				if j := strings.Index(l, "/repo/"); j >= 0 {
+					t.Line("# hang-stack     at %s", strings.Fields(l[j+6:])[0])
+				}
+				continue
+			}
+			if strings.Contains(l, "internal/sync") || strings.Contains(l, "sync.(*Mutex)") || l == "" {
+				continue
+			}
+			if i := strings.LastIndex(l, "("); i > 0 && !strings.HasPrefix(l, "goroutine") && !strings.HasPrefix(l, "created by") {
+				l = l[:i]
+			}
+			t.Line("# hang-stack %s", l)
+			if n++; n > 8 {
+				break
+			}
+		}
+		t.Line("# hang-stack --")
+	}
+}
+
+// c17RescanUpdateParked: the only peer never answers getcfilters.  A rescan is
+// busy inside GetCFilter, Update calls are parked on its update channel, the
+// owner has NOT closed the rescan's own quit channel; then the client stops.
+// Stop makes the rescan's fetch fail and the rescan exit; every parked Update
+// (and WaitForShutdown, and the error channel) must come back.
+func c17RescanUpdateParked(t *tr.W, rng *rand.Rand) {
+	l := 20 + rng.Intn(20)
+	sc := Scenario{Name: "rescan-update-parked-at-stop", Len: l, Peers: []Behaviour{{Kind: "noCFilters"}}}
+	t.Case("c17 rescan-update-parked-at-stop len %d npeers 1", l)
+	s, err := New(sc, rng, t.Op)
+	if err != nil {
+		t.Op("setup", "err "+err.Error())
+		return
+	}
+	defer s.Cleanup()
+	peerLines(t, s)
+	if err := s.Start(); err != nil {
+		t.Op("start", "err "+err.Error())
+		return
+	}
+	ok := s.waitFor(6*time.Second, s.converged)
+	t.Op("waitsync", map[bool]string{true: "ok", false: "timeout"}[ok])
+	b1 := s.W.Honest().Ancestor(1)
+	script := b1.Msg.Transactions[0].TxOut[0].PkScript
+	before := atomic.LoadInt32(&s.Peers[0].GotGetCFilters)
+	// the rescan's own quit channel: a rescan must have one, but its owner does not
+	// close it here - stopping the client is all that happens
+	rsQuit := make(chan struct{})
+	defer close(rsQuit)
+	rs := neutrino.NewRescan(&neutrino.RescanChainSource{ChainService: s.CS},
+		neutrino.StartBlock(&headerfs.BlockStamp{Height: 0, Hash: s.W.Genesis.Hash}),
+		neutrino.WatchInputs(neutrino.InputWithScript{OutPoint: wire.OutPoint{Hash: b1.Msg.Transactions[0].TxHash()}, PkScript: script}),
+		neutrino.NotificationHandlers(rpcclient.NotificationHandlers{
+			OnFilteredBlockConnected: func(int32, *wire.BlockHeader, []*btcutil.Tx) {},
+		}),
+		neutrino.QuitChan(rsQuit),
+	)
+	errCh := rs.Start()
+	busy := false
+	for i := 0; i < 300 && !busy; i++ {
+		time.Sleep(10 * time.Millisecond)
+		busy = atomic.LoadInt32(&s.Peers[0].GotGetCFilters) > before
+	}
+	t.Op("rescan", map[bool]string{true: "in-GetCFilter", false: "not-reached"}[busy])
+	nupd := 1 + rng.Intn(3)
+	var dones []chan struct{}
+	for i := 0; i < nupd; i++ {
+		_, done := timed(time.Millisecond, func() {
+			rs.Update(neutrino.AddInputs(neutrino.InputWithScript{OutPoint: wire.OutPoint{Index: 9}, PkScript: script}))
+		})
+		dones = append(dones, done)
+	}
+	time.Sleep(100 * time.Millisecond) // the Update calls reach the update channel
+	d := s.Stop()
+	if d < 0 {
+		t.Op("stop", "HANG")
+		hangStacks(t, s.HangDump, "(*ChainService).Stop")
+	} else {
+		t.Op("stop", "ok")
+		t.Line("# stop took %d ms", d.Milliseconds())
+	}
+	hung := 0
+	limit := time.After(3 * time.Second)
+	for _, done := range dones {
+		select {
+		case <-done:
+		case <-limit:
+			hung++
+			limit = time.After(time.Millisecond)
+		}
+	}
+	t.Op("call Rescan.Update", fmt.Sprintf("hung %d", hung))
+	if hung > 0 {
+		hangStacks(t, Goroutines(), "(*Rescan).Update")
+	}
+	retE, _ := timed(3*time.Second, func() { <-errCh })
+	t.Op("call Rescan.Start:errChan", map[bool]string{true: "hung 0", false: "hung 1"}[retE])
+	retW, _ := timed(3*time.Second, rs.WaitForShutdown)
+	t.Op("call Rescan.WaitForShutdown", map[bool]string{true: "hung 0", false: "hung 1"}[retW])
+	t.Hit("c17.rescan-update-parked")
 }
